@@ -13,7 +13,7 @@ pub fn meta() -> Meta {
     Meta {
         id: "C12",
         level: "exploration",
-        rule: "paired FASTQ read sets through the real SkaDict::new (in-process) against a brute-force count model: genome g of k+2 letters and a variant g' differing in the middle base of the central window, k in {5,9,31,33} (thorough: + 7, 63), both strand modes. Family A (counts): min-count c=1..6 x every multiplicity pair (a,a') in {0,c-1,c,c+1}^2 for the two central k-mers x every split of each multiplicity between file 1 (forward) and file 2 (reverse complement). Family B (quality): c in 1..3, three quality rules x min-qual in {0,1,20,40} x one designated low-quality base (middle, middle-1, first, last of a k-long read; positions 0, h, h+1, k+1 of a (k+2)-long read) with quality in {Q-1,Q,Q+1} on exactly one of the c copies. Family C: N at every position of the (k+2)-long read, and of a read of 2k+4 letters (k or more valid bases behind the N; also a low-quality base there under the strict rule, and an N with a low-quality middle base in the window before or behind it under the middle rule). Family D: the same through `ska build -f` option parsing (one of the two files with CRLF line ends in two of the four configurations), and a single FASTQ file given as positional argument or as a two-field list line. Family P (k in {5,7,31,33}; thorough + 9, 15, 63): reads holding a k-mer whose arms are reverse complements of each other (X m rc(X), each m; also homopolymer arms A^h m A^h, A^h m T^h, G^h m G^h; bare, with flanks), c=1..3, totals c-1/c/c+1 split between the strands and the files in every way. Family M: several read samples in one `ska build` (a sample seeing a read c times, one seeing it c-1 times plus another read c times, a third), every column must equal the sample built alone, both sample orders. Family E (k in {5,33}; thorough + 7, 31, 63): every multiset of up to three reads drawn from all substrings of length k..k+3, both orientations, of a (k+3)-letter genome and of its one-substitution variant (quick: triples from the genome only), all in file 1 or alternating between the files, c=1..3 (the same k-mer met as first window of one read and as rolled window of another, on either strand); and every pair of such reads with one base of quality Q-1 or Q at every position of the first (k<=7; ends and window middles otherwise; quick: k=5 only), middle and strict rule, c=1..2. One larger data set (~2*10^4 distinct k-mers plus singleton error k-mers) bounds the share of below-threshold k-mers that enter; a 400 kb genome given three times as reads at min-count 3 must give exactly the FASTA builder's dictionary of the genome (4*10^5 distinct k-mers, none lost), and the same genome twice plus a copy with a substitution every 40 bases at min-count 2 (3*10^5 k-mers seen once: fewer than 0.1% may enter). Non-trivial = the model's dictionary is non-empty or a k-mer sits exactly at a threshold.".into(),
+        rule: "paired FASTQ read sets through the real SkaDict::new (in-process) against a brute-force count model: genome g of k+2 letters and a variant g' differing in the middle base of the central window, k in {5,9,31,33} (thorough: + 7, 63), both strand modes. Family A (counts): min-count c=1..6 x every multiplicity pair (a,a') in {0,c-1,c,c+1}^2 for the two central k-mers x every split of each multiplicity between file 1 (forward) and file 2 (reverse complement). Family B (quality): c in 1..3, three quality rules x min-qual in {0,1,20,40} x one designated low-quality base (middle, middle-1, first, last of a k-long read; positions 0, h, h+1, k+1 of a (k+2)-long read) with quality in {Q-1,Q,Q+1} on exactly one of the c copies. Family C: N at every position of the (k+2)-long read, and of a read of 2k+4 letters (k or more valid bases behind the N; also a low-quality base there under the strict rule, and an N with a low-quality middle base in the window before or behind it under the middle rule). Family D: the same through `ska build -f` option parsing (one of the two files with CRLF line ends in two of the four configurations), and a single FASTQ file given as positional argument or as a two-field list line. Family P (k in {5,7,31,33}; thorough + 9, 15, 63): reads holding a k-mer whose arms are reverse complements of each other (X m rc(X), each m; also homopolymer arms A^h m A^h, A^h m T^h, G^h m G^h; bare, with flanks), c=1..3, totals c-1/c/c+1 split between the strands and the files in every way. Family M: several read samples in one `ska build` (a sample seeing a read c times, one seeing it c-1 times plus another read c times, a third), every column must equal the sample built alone, both sample orders. Family E (k in {5,33}; thorough + 7, 31, 63): every multiset of up to three reads drawn from all substrings of length k..k+3, both orientations, of a (k+3)-letter genome and of its one-substitution variant (quick: triples from the genome only), all in file 1 or alternating between the files, c=1..3 (the same k-mer met as first window of one read and as rolled window of another, on either strand); and every pair of such reads with one base of quality Q-1 or Q at every position of the first (k<=7; ends and window middles otherwise; quick: k=5 only), middle and strict rule, c=1..2. One larger data set (~2*10^4 distinct k-mers plus singleton error k-mers) bounds the share of below-threshold k-mers that enter; a 400 kb genome given three times as reads at min-count 3 must give exactly the FASTA builder's dictionary of the genome (4*10^5 distinct k-mers, none lost), and the same genome twice plus a copy with a substitution every 40 bases at min-count 2 (3*10^5 k-mers seen once: fewer than 0.1% may enter). Non-trivial = the model's dictionary is non-empty or a k-mer sits exactly at a threshold. Every sixth case of every family is repeated with soft-masked reads (every second read has every third base in lower case) and every sixth with all passing qualities raised to 64..93 (characters a..~): same dictionary.".into(),
         assumptions: vec!["an extra entry would only be acceptable as a counting-filter collision; on these inputs none is expected and any extra is reported".into(), "a sample in which nothing reaches the threshold may be refused".into()],
         exhaustive_when_uncapped: true,
     }
@@ -112,9 +112,11 @@ fn run_case(rep: &mut Report, c: &Case, fam: &str) {
             rep.violate(format!("{fam} {j}"), format!("{fam} k={} rc={} c={} Q={} {}: {e}", c.k, c.rc, c.c, c.q, rule_name(c.rule)), j);
         }
     }
-    // every fourth case once more with soft-masked reads: every second read has every third base in lower case (read
+    // every sixth case once more with soft-masked reads: every second read has every third base in lower case (read
     // 1 from its first base on, read 3 from its second ...). Lower case is the same base: same dictionary expected.
-    if rep.evaluations % 4 == 1 && fam != "soft-masked" {
+    static BASE_CASES: std::sync::atomic::AtomicU64 = std::sync::atomic::AtomicU64::new(0);
+    let base_idx = BASE_CASES.fetch_add(1, std::sync::atomic::Ordering::Relaxed);
+    if base_idx % 6 == 1 && fam != "soft-masked" {
         let mask = |v: &Vec<Read>, off: usize| -> Vec<Read> {
             v.iter()
                 .enumerate()
@@ -137,6 +139,26 @@ fn run_case(rep: &mut Report, c: &Case, fam: &str) {
             Err(e) => {
                 let j = case_json(&cm);
                 rep.violate(format!("soft-masked {fam} {j}"), format!("{fam} with soft-masked (lower-case) bases k={} rc={} c={} Q={} {}: {e}", c.k, c.rc, c.c, c.q, rule_name(c.rule)), j);
+            }
+        }
+    }
+    // every sixth case once more with very high qualities: every passing quality replaced by one of 64..93 (legal
+    // PHRED values written by long-read base callers; characters 'a'..'~'), failing ones kept: same dictionary
+    if base_idx % 6 == 4 && fam != "soft-masked" {
+        let lift = |v: &Vec<Read>, off: usize| -> Vec<Read> { v.iter().enumerate().map(|(i, (s, q))| (s.clone(), q.iter().enumerate().map(|(p, x)| if *x >= c.q { 64 + ((i + p + off) % 30) as u8 } else { *x }).collect())).collect() };
+        let files = [lift(&c.files[0], 0), lift(&c.files[1], 7)];
+        let cm = Case { k: c.k, rc: c.rc, c: c.c, q: c.q, rule: c.rule, files: &files };
+        rep.evaluations += 1;
+        rep.corner("qualities_64_to_93");
+        match check(&cm) {
+            Ok(nt) => {
+                if nt {
+                    rep.nontrivial += 1;
+                }
+            }
+            Err(e) => {
+                let j = case_json(&cm);
+                rep.violate(format!("high-quality {fam} {j}"), format!("{fam} with passing qualities raised to 64..93 k={} rc={} c={} Q={} {}: {e}", c.k, c.rc, c.c, c.q, rule_name(c.rule)), j);
             }
         }
     }
